@@ -190,10 +190,41 @@ def gen_operand_arith(man):
     return "\n".join(lines)
 
 
-GENERATORS = {"AddLocalSites.v": gen_add_local_sites, "OperandArith.v": gen_operand_arith}
+# ---------------------------------------------------------------------------------------------------------------
+# constants reach a chunk through ONE checked route: `make_constant` (the only caller of Chunk::add_constant in
+# compiler.rs) compares the index with u16::MAX and reports "Too many constants in one chunk."
+
+def constant_sites(src):
+    toks = lex(src)
+    ranges = fn_ranges(toks)
+    sites = [enclosing_fn(ranges, i + 1) for i in find_all_seq(toks, [".", "add_constant", "("])]
+    enforces = False
+    for (name, o, c) in ranges:
+        if name == "make_constant":
+            body = [t.text for t in toks[o:c + 1]]
+            txt = " ".join(body)
+            enforces = ("add_constant" in body and ">" in body and "u16 :: MAX" in txt and "error" in body
+                        and "Too many constants" in txt)
+    return sites, enforces
+
+
+def gen_constant_sites(man):
+    with open(os.path.join(SRC, "compiler.rs")) as fh:
+        sites, enforces = constant_sites(fh.read())
+    man["add_constant_sites"] = sites
+    lines = ["(* GENERATED by translator/translate_c04.py from compiler.rs - do not edit *)",
+             "From Coq Require Import List String Bool.", "Import ListNotations.", "Open Scope string_scope.", "",
+             "(* enclosing function of every `.add_constant(` call in compiler.rs, in source order *)",
+             "Definition add_constant_sites : list string := [%s]." % "; ".join('"%s"' % f for f in sites),
+             "(* make_constant still compares the index with u16::MAX and reports the error *)",
+             "Definition make_constant_enforces_limit : bool := %s." % ("true" if enforces else "false"), ""]
+    return "\n".join(lines)
+
+
+GENERATORS = {"AddLocalSites.v": gen_add_local_sites, "OperandArith.v": gen_operand_arith, "ConstantSites.v": gen_constant_sites}
 
 if __name__ == "__main__":
     # developer aid: python3 translate_c04.py <file.rs>  prints the table of another version of the source
     with open(sys.argv[1]) as fh:
         txt = fh.read()
-    print(operand_arith(txt) if sys.argv[1].endswith("vm.rs") else extract(txt))
+    print(operand_arith(txt) if sys.argv[1].endswith("vm.rs") else (extract(txt), constant_sites(txt)))
